@@ -359,3 +359,33 @@ Proof.
   destruct (N.ltb_spec (m_txid (meta0 rd)) (m_txid (meta1 rd ps))) as [Hlt|Hge]; [lia|].
   apply H. exact HM.
 Qed.
+
+(** * repair commands (C20) *)
+Definition set_freelist (m : meta) (fl : N) : meta :=
+  {| m_magic := m_magic m; m_version := m_version m; m_pagesize := m_pagesize m; m_flags := m_flags m;
+     m_root := m_root m; m_seq := m_seq m; m_fl := fl; m_mark := m_mark m; m_txid := m_txid m; m_sum := m_sum m |}.
+
+(** ClearFreelist: a meta whose freelist field is set to "none" and whose checksum is recomputed validates again,
+    and reads back with every other field untouched *)
+Theorem abandon_meta_valid m pre post : meta_fields_ok m -> m_magic m = magic -> m_version m = version ->
+  let m' := set_freelist m pgid_no_freelist in
+  validate_at (rd_of (pre ++ enc_meta m' ++ post)) (N.of_nat (length pre)) = MOk /\
+  rd_meta_at (rd_of (pre ++ enc_meta m' ++ post)) (N.of_nat (length pre)) = with_sum m'.
+Proof.
+  intros Hok Hm Hv m'.
+  assert (Hok' : meta_fields_ok m').
+  { destruct Hok as (H1 & H2 & H3 & H4 & H5 & H6 & H7 & H8 & H9). unfold m', set_freelist, meta_fields_ok. simpl.
+    repeat split; try assumption. }
+  split; [apply meta_written_validates; assumption | apply meta_roundtrip; exact Hok'].
+Qed.
+
+(** RevertMetaPage: when both slots hold the same (older) meta, Open presents it *)
+Theorem revert_presents_older rd flen dps ps :
+  page_size_model rd flen dps (validate_at rd page_header_size) = Some ps -> 2 * ps <= flen ->
+  valid0 rd -> valid1 rd ps -> m_txid (meta1 rd ps) = m_txid (meta0 rd) -> m_mark (meta0 rd) * ps <= flen ->
+  open_model rd flen dps = OpenOk ps (meta0 rd).
+Proof.
+  intros HP HL V0 V1 Ht HM.
+  pose proof (open_prefers_newer rd flen dps ps HP HL V0 V1) as H. cbv zeta in H.
+  destruct (N.ltb_spec (m_txid (meta0 rd)) (m_txid (meta1 rd ps))) as [Hlt|Hge]; [lia|]. apply H. exact HM.
+Qed.
